@@ -159,6 +159,11 @@ def check(run, mod, args):
 			unsupported.append((eng.label_of(qual, inst), str(e)))
 			if args.v:
 				traceback.print_exc()
+		except Exception as e:
+			# a crash of the engine on this function (typically on changed code it was never run on): a machinery error for this
+			# target, but the remaining targets and the bounded run still take place (a replayed failing input is still a verdict)
+			run.machinery_errors.append(f'engine crashed on {eng.label_of(qual, inst)}: {type(e).__name__}: {e}')
+			traceback.print_exc()
 	obligations = list(eng.obligations)
 	lemma_obs = []
 	if hasattr(mod, 'lemmas'):
